@@ -115,6 +115,10 @@ def check(ctx):
     check_roles(ctx)
     check_identity_assert(ctx)
     check_group_of_parent(ctx)
+    # ... and a parent left with one usable marker is mapped with it
+    # (rule of C02)
+    from .C02 import check_sample_within_population
+    check_sample_within_population(ctx)
     check_query_names_as_in_file(ctx)
     # the settings reach the stages as configured (sa/rules/forwarding.py)
     from ..rules.forwarding import check_config_settings_as_requested
